@@ -30,6 +30,8 @@ def gen(rng, n):
         if rng.chance(1, 3):
             d["NDGRAM"] = rng.range(1, 30)
             d["DGRAM_SIZE"] = rng.choice([8, 500, 1100, 1150])
+        if rng.chance(1, 3):
+            d["PAD_TO_MTU"] = 1
         if rng.chance(1, 4):
             d["ACK_FREQ"] = 2
         if rng.chance(1, 4):
